@@ -123,6 +123,28 @@ func main() {
 	ro := bs.Func("RemoveOutputs")
 	out.Def("removeOutputsCalls", "List String", xlib.LeanStrList(names(calls(ro.Body, set("RemoveAll", "Outputs")))))
 
+	// --- the hashes of the OLD outputs are recalculated (not read back from the memoised user.plz_hash_* xattr, which
+	// a partially removed directory would still carry) before the command runs: outputHashOrNil -> outputHash -> Hash(f, true, ..)
+	recalcBefore := false
+	for _, c := range calls(bt.Body, set("outputHashOrNil")) {
+		if c.pos < runCmd[0].pos && len(c.node.Args) >= 2 && containsCall(c.node.Args[1], "FullOutputs") {
+			recalcBefore = true
+		}
+	}
+	ohn := bs.Func("outputHashOrNil")
+	if !containsCall(ohn.Body, "outputHash") {
+		recalcBefore = false
+	}
+	oh := bs.Func("outputHash")
+	var recalcArgs []string
+	for _, c := range calls(oh.Body, set("Hash")) {
+		if len(c.node.Args) >= 2 {
+			recalcArgs = append(recalcArgs, bs.Src(c.node.Args[1]))
+		}
+	}
+	out.Def("oldOutputsRehashedBeforeCommand", "Bool", xlib.LeanBool(recalcBefore))
+	out.Def("outputHashRecalcArgs", "List String", xlib.LeanStrList(recalcArgs))
+
 	// --- calculateAndCheckRuleHash: the stamp is written after the output hash was taken
 	cr := bs.Func("calculateAndCheckRuleHash")
 	out.Def("stampPhaseCalls", "List String", xlib.LeanStrList(names(calls(cr.Body, set("OutputHash", "writeRuleHash")))))
@@ -355,7 +377,8 @@ func main() {
 
 	// --- fs.WriteFile
 	wf := fsgo.Func("WriteFile")
-	wfc := calls(wf.Body, set("MkdirAll", "CreateTemp", "Copy", "Close", "Chmod", "renameFile", "Rename", "Create", "OpenFile", "Sync"))
+	wfc := calls(wf.Body, set("MkdirAll", "CreateTemp", "Copy", "Close", "Chmod", "renameFile", "Rename", "Create", "OpenFile", "Sync",
+		"Remove", "RemoveAll", "Truncate", "WriteFile", "Link", "Symlink"))
 	out.Def("writeFileCalls", "List String", xlib.LeanStrList(names(wfc)))
 	// the temporary is created in the directory of the destination: dir, file := filepath.Split(to); CreateTemp(dir, file)
 	sameDir := false
